@@ -107,6 +107,20 @@ def check_assembly(ctx, case):
     elif f2[0] == "ok" and asm.canon_rot(str(p2.seq)) != asm.canon_rot(str(p1.seq)):
         ctx.fail("records turned over with reverse_complement(...) assemble to another product than the other strand "
                  "spelt out", case)
+    # … and turned over with the defaults of reverse_complement(): sequence only, every record left without a name
+    # (the defaults keep the features and drop the reference list: only for inputs whose features cite nothing)
+    cited = any(f[2] for e in [case["vector"]] + case["mods"] for f in e.get("feats", []))
+    bare = {}
+    for oid, ent in objs.items():
+        bare[oid] = type(ent)(ent.record.reverse_complement())
+    r3, p3, _ = (r1, p1, None) if cited else impl.run_asm(op0, entities=(bare[op0[3].oid], [bare[m.oid] for m in op0[4]], bare))
+    f3 = r3.split("\t")
+    if f3[0] != f1[0] or (f3[0] == "err" and f3[1] != f1[1]):
+        ctx.fail("records turned over with reverse_complement() (defaults: no identifiers kept) give {} where the other "
+                 "strand spelt out gives {}".format(f3[:2], f1[:2]), case)
+    elif f3[0] == "ok" and asm.canon_rot(str(p3.seq)) != asm.canon_rot(str(p1.seq)):
+        ctx.fail("records turned over with reverse_complement() assemble to another product than the other strand "
+                 "spelt out", case)
     ctx.case({k: v for k, v in case.items() if k != "info"}, nontrivial=f0[0] == "ok")
     ctx.op(asm.asm_op(rcase), None, reply=r1)
 
